@@ -77,6 +77,8 @@ def random_script(sid, rnd, group):
         for i in range(n):
             at += rnd.choice([0, 0, 0, 4, 9])
             a.append({"at": at, "do": "accept", "size": rnd.choice([1, 1, 2, 3])})
+            if dirok and rnd.random() < 0.12:
+                a[-1]["wfault"] = True      # a write error while this chunk is accepted (it only matters if something is saved then)
         at2 = 0
         for i in range(rnd.randint(0, 8)):
             at2 += rnd.choice([0, 2, 5, 9])
@@ -100,6 +102,12 @@ def stop_stories(group):
             for late in (40, 4):
                 a = [{"at": 0, "do": "accept", "size": 1} for _ in range(k)]
                 c = [{"at": 0, "do": "take"} for _ in range(j)]
+                if late == 40 and k >= 2 and dirok:      # the same with a write error at the accept of the second-last chunk
+                    a2 = [dict(x) for x in a]
+                    a2[-2]["wfault"] = True
+                    out.append({"id": "%s-stalled-wfault-%d-%d" % (group, k, j), "seed": 11 + k * 31 + j, "jitter": False, "q": q, "m": m, "maxBytes": mb,
+                                "nodir": not dirok, "early": False,
+                                "gens": [{"a": a2, "c": c, "destroyAt": 10 ** 6, "policy": "stalled"}, {"a": [], "c": [], "destroyAt": 30, "policy": "confirm"}]})
                 out.append({"id": "%s-stalled-%d-%d-%d" % (group, k, j, late), "seed": 7 + k * 31 + j, "jitter": False, "q": q, "m": m, "maxBytes": mb,
                             "nodir": not dirok, "early": False,
                             "gens": [{"a": a, "c": c, "destroyAt": 10 ** 6 if late == 40 else 4 * k, "policy": "stalled"},
